@@ -38,7 +38,9 @@ func c12Jobs(tier string) []string {
 	}
 	var jobs []string
 	for _, w := range worlds {
-		jobs = append(jobs, fmt.Sprintf("%s|e0p|queryK%d", w, k))
+		for s := 0; s < 4; s++ {
+			jobs = append(jobs, fmt.Sprintf("%s|e0p|queryK%d#%d/4", w, k, s))
+		}
 		jobs = append(jobs, fmt.Sprintf("%s|e1p|queryK%d", w, k-1))
 	}
 	return jobs
